@@ -10,43 +10,68 @@ import tempfile
 
 import common
 import layouts as L
+import objgraph as G
 import validator as V
 from common import REPO, Ctx, enc_bytes, enc_text, exc_name
 
 PID = "C07"
 PROPS_MODULE = "NumbersModel.Props.C07"
 THEOREMS = [f"NumbersModel.Props.C07.{t}" for t in (
-    "open_store_bounds", "ids_unique_and_below_hwm", "new_file_listed", "tiles_partition_rows", "tiles_wellformed",
-    "records_in_bounds_aligned_disjoint", "record_positions", "row_info_offsets_roundtrip")]
+    "open_store_bounds", "ids_unique_and_below_hwm", "new_file_listed", "new_files_listed_history", "references_closed",
+    "references_closed_except", "targetsExist_prefix", "header_refs_exact", "created_header_exact", "tiles_partition_rows",
+    "tiles_wellformed", "records_in_bounds_aligned_disjoint", "record_positions", "row_info_offsets_roundtrip")]
 PARTIAL = {
-    "references_resolve": "that every TSP.Reference inside the protobuf objects the library creates or rewrites resolves inside the package "
-                          "is not a theorem (the object graph is not modelled); it is validated on every saved package by harness/validator.py",
     "saved_file_opens_again": "validated, not proved (zipfile, snappy, protobuf and the whole reader are outside the model)",
-    "creator_sites_follow_listed_pattern": "new_file_listed is proved for the creation pattern every file-creating site uses (create_object_from_dict('Index/<loc>') followed by "
-                       "add_component_metadata(id, parent, '<loc>')); that each site in model.py follows the pattern is checked by the validator",
+    "targets_exist_at_each_site": "references_closed is proved for every history that satisfies TargetsExist; that the histories the library performs satisfy it "
+                                  "is checked on every recorded real session (oracle signature reference-to-missing-object), not derived from model.py: the "
+                                  "creator sites are not modelled one by one. It fails exactly for identifier 0 (known finding null-reference-identifier-zero; "
+                                  "references_closed_except with the exemption of 0 covers those histories)",
+    "stored_objects_stay_filed": "header_refs_exact assumes wellFiled (every stored object's archive is in the file its file-name map names). It is not an invariant of "
+                                 "arbitrary histories: create_object_from_dict stores a new file under pattern.format(id)+'.iwa' even when a member of that name exists "
+                                 "(example in Props/C07.lean); the driver evaluates wellFiled before and after every recorded history and the oracle checks it on the real store",
+    "header_exact_without_proviso": "header_refs_exact has the proviso the code has (`if len(references) > 0`): an object whose message lost all references keeps the header "
+                                    "list of an earlier moment (seen on real sessions: HeaderStorageBucket of issue-66-collab / issue-77, counted in the evidence); the "
+                                    "entries still resolve, so closure is not affected",
 }
 RULE = ("correspondence: _max_id of freshly opened fixtures and math.ceil(m/1e6)*1e6 on boundary values; seeded sequences of "
         "create_object_from_dict / add_component_metadata on a real ObjectStore + _NumbersModel stub (file choice by substring, append, "
         "new files, failures after the identifier is consumed); tiles of saved tables with 0..1100 rows; recalculate_row_info on seeded "
-        "rows (incl. a row too long for 16-bit offsets). Validator (exploration): every package produced by plain re-save of fixtures and by "
+        "rows (incl. a row too long for 16-bit offsets); object graph: every edit+save session below is recorded in-process (harness/objgraph.py wraps "
+        "create_object_from_dict, add_component_metadata, add_component_reference, update_object_file_store, set_reference and the reference-writing methods of "
+        "model.py; reference writes are observed as differences of each object's reference list between observation points) and the recorded history is replayed "
+        "through the model (`ostore ghist`): results of every creation / metadata call, wellFiled, TargetsExist and the final state (identifiers, archive inventory, "
+        "components with external references, per archive the references of the written message and the header's object_references) must equal the decoded saved package. "
+        "Oracle on the real session (independent of the model): TargetsExist at every recorded write, every new archive file listed, no member replaced, every stored object filed, "
+        "header object_references = references of the message for every archive created or changed. Validator (exploration): every package produced by plain re-save of fixtures and by "
         "seeded edit histories (new sheets/tables incl. 255/256/257/512 rows and 256/257/1000 columns, writes of every cell kind, styles, "
         "custom formats, borders, captions, merges, row/column insertion and deletion, repeated saves, package-folder form). Non-trivial = a "
-        "distinct protocol line or a saved package validated")
+        "distinct protocol line, a saved package validated or a recorded session replayed")
 ASSUMPTIONS = ["math.ceil(m / 1000000) is exact float arithmetic for identifiers below 2^53 (modelled as integer ceiling)",
                "cell records have lengths that are multiples of 4 (C04) — hypothesis of records_in_bounds_aligned_disjoint",
-               "the validator decodes packages with the library's own IWA/protobuf classes (used as a decoder only)"]
+               "the validator and the recorder decode messages with the library's own IWA/protobuf classes (used as a decoder only); references are found by "
+               "validator.all_references (own walk over ListFields, map fields skipped as iwafile.find_references skips them)",
+               "a protobuf message is abstracted to the list of identifiers of the TSP.Reference values inside it; an archive to (message references, "
+               "message_infos[0].object_references); objects read from the source share their message with the archive, created ones do not (containers.py / iwork.py)",
+               "component identifiers of PackageMetadata are pairwise distinct (then the identifier-keyed dict and the @cache of metadata_component are unobservable)"]
 MANIFEST = {
-    "text": "Thin: identifier allocation and creation bookkeeping are modelled as a state machine (new_message_id, "
-            "create_object_from_dict, add_component_metadata): ids_unique_and_below_hwm (any sequence of creations, including ones that "
-            "raise half-way: new identifiers pairwise distinct, distinct from loaded ones, <= last_object_identifier), open_store_bounds, "
-            "new_file_listed; tile geometry: tiles_partition_rows + tiles_wellformed (for every row count the tiles cover exactly rows "
-            "0..n-1, each tile non-empty, <= 256 rows, ids 0..ceil(n/256)-1); row-infos: records_in_bounds_aligned_disjoint + "
-            "record_positions + row_info_offsets_roundtrip (what recalculate_row_info writes decodes through the reader to exactly the "
-            "records; 4-byte aligned, in bounds, disjoint). Reference closure, 'opens again' and the inventory of real packages are "
-            "reached only by harness/validator.py on saved files — implementation-level exploration, labelled as such.",
-    "note": "object graph / protobuf contents are not modelled; validator decodes with the library's own classes; Apple Numbers' "
-            "acceptance of the files is out of reach.",
-    "technique": "Lean 4 proof (state-machine invariant, arithmetic of tiles and offsets) + differential correspondence + structural validator",
+    "text": "Identifier allocation, creation bookkeeping and the object graph are modelled as a state machine (new_message_id, create_object_from_dict, "
+            "add_component_metadata, add_component_reference, reference writes / removals, update_object_file_store with copy_object_to_iwa_file's header rule, "
+            "store_image): ids_unique_and_below_hwm (any sequence of creations, including ones that raise half-way: new identifiers pairwise distinct, distinct "
+            "from loaded ones, <= last_object_identifier), open_store_bounds; references_closed (closure is an invariant: for every opened document and every "
+            "history whose reference writes target an object existing at that moment - TargetsExist, decidable - every reference of every live message, written "
+            "message and archive header in every reachable state resolves, except those already unresolved at load in the same object; "
+            "references_closed_except: the same with an exempted identifier set - the recorded add_table history violates TargetsExist exactly at the write of "
+            "identifier 0, known finding null-reference-identifier-zero, shown by an example); header_refs_exact (after update_object_file_store every stored "
+            "object's written message holds the live references and its header lists exactly them, with the code's proviso for a message without references) + "
+            "created_header_exact; new_file_listed + new_files_listed_history (a new archive file is listed with the locator that names it and the entry survives "
+            "every later operation); tile geometry: tiles_partition_rows + tiles_wellformed; row-infos: records_in_bounds_aligned_disjoint + record_positions + "
+            "row_info_offsets_roundtrip. Tie to the code: the operation history of every real edit+save session (seeded histories, add_table / add_sheet across tile "
+            "boundaries, styles, custom formats, captions, merges, borders, plain re-saves, second saves, reopened files) is recorded in-process and replayed through "
+            "the model; the model's final state equals the decoded saved package, and TargetsExist / listing / filing / header exactness are checked on the real session. "
+            "'Opens again' and the table-level conjuncts of real packages are reached by harness/validator.py - implementation-level exploration, labelled as such.",
+    "note": "protobuf contents other than references are not modelled; that each creator site of model.py satisfies TargetsExist is observed on recorded sessions, not derived; "
+            "validator and recorder decode with the library's own classes; Apple Numbers' acceptance of the files is out of reach.",
+    "technique": "Lean 4 proof (state-machine invariants over operation histories, arithmetic of tiles and offsets) + differential correspondence on recorded real sessions + structural validator",
 }
 
 SLOW_QUICK = {"duration_112", "custom-format-stress", "issue-67", "date_formats", "test-6"}
@@ -180,7 +205,8 @@ def check_creation(ctx: Ctx):
         for n, f in st._file_store.items():
             files_out.append(enc_text(n) + "=" + ("B" if not isinstance(f, IWAFile) else "+".join(str(a.header.identifier) for a in f.chunks[0].archives) or "-"))
         comps_out = [f"{c.identifier}/{enc_text(c.locator)}/{enc_text(c.preferred_locator)}/" +
-                     ("+".join(str(e.component_identifier) for e in c.external_references) or "-") for c in meta.components]
+                     ("+".join(f"{e.component_identifier}:{e.object_identifier}:{int(bool(e.is_weak))}" for e in c.external_references) or "-")
+                     for c in meta.components]
         keys = list(st._objects.keys())
         req.append(f"ostore hist {last0} {len(ids0)} " + " ".join(map(str, ids0)) + f" {len(files_desc)} " + " ".join(files_desc) +
                    f" {len(comps_desc)} " + " ".join(comps_desc) + " " + " ".join(ops))
@@ -409,6 +435,89 @@ def run_history(src: str | None, seed: int, nops: int, shape=None):
     return doc, log, fresh
 
 
+# ---------------------------------------------------------------------------------------------
+# object graph: the recorded history of a real session through the model, and the closure oracle
+# ---------------------------------------------------------------------------------------------
+_MODEL_OK = [True]
+_QUICK = [True]
+GRAPH_SUBSPACE = "object-graph history of a real edit+save session: model's final state vs decoded saved package"
+
+
+def _only(a: list, b: list) -> list:
+    from collections import Counter
+    return sorted((Counter(a) - Counter(b)).elements())
+
+
+def graph_check(sub: Ctx, rec, facts, where: dict, label: str) -> dict:
+    """`rec`: the recorder attached to the document's store; `facts`: the decoded saved package.
+    Returns the compact correspondence result (the model is run here, in the worker)."""
+    rec.flush()
+    tag = f" [{label}]"
+    hist = {"history_tail": rec.history_json(30), "recorded_ops": len(rec.ops)}
+    # -- the property on the real session (independent of the Lean model) -----------------------
+    for b in rec.bad_targets:   # TargetsExist on the real history
+        if b["target"] == 0:
+            sub.violation("null-reference-identifier-zero", f"object {b['object']} ({b['object_type']}) is given a TSP.Reference with identifier 0 "
+                          f"at {b['site']}: no such object exists (TargetsExist fails at op {b['op_index']})" + tag, {**where, **hist, "bad_target": b})
+        else:
+            sub.violation("reference-to-missing-object", f"object {b['object']} ({b['object_type']}) is given a reference to {b['target']} at {b['site']}, "
+                          f"but no object {b['target']} exists at that moment (TargetsExist fails at op {b['op_index']} of the recorded history)" + tag,
+                          {**where, **hist, "bad_target": b})
+    for i, name in rec.unlisted_new_files():
+        sub.violation("created-file-without-component-entry", f"object {i} was created in the new archive file {name} and no add_component_metadata "
+                      f"call for it followed" + tag, {**where, **hist, "object": i, "file": name})
+    for i, name, taken in rec.new_files:
+        if taken:
+            sub.violation("created-file-replaces-existing-member", f"create_object_from_dict stored object {i} as new file {name}, replacing the member of that name" + tag,
+                          {**where, **hist, "object": i, "file": name})
+    if not rec.filed():
+        sub.violation("stored-object-not-filed", "an object of the store has no archive in the file its file-name map names (update_object_file_store cannot reach it)" + tag,
+                      {**where, **hist})
+    # header object_references of every archive the session created or changed = the references of its message
+    load_refs, load_ids = rec.load["refs"], set(rec.load["ids"])
+    kept = []
+    for n, f in facts.pp.files.items():
+        for a in f.chunks[0].archives:
+            i = a.header.identifier
+            if not a.header.message_infos:
+                continue
+            m = sorted(V.all_references(a.objects[0]))
+            h = sorted(a.header.message_infos[0].object_references)
+            if i in load_ids and m == sorted(load_refs.get(i, [])):
+                continue   # not rewritten with different references
+            if not m and h and set(h) <= rec.ever.get(i, set()):
+                # the proviso of header_refs_exact, as the code computes it (`if len(references) > 0`): the message lost its last
+                # reference and the header keeps the list of an earlier moment; every entry once was a reference of this object
+                kept.append({"object": i, "type": type(a.objects[0]).__name__, "header_keeps": sorted(set(h))[:6]})
+                continue
+            if h != m:
+                sub.violation("header-object-references-differ-from-message", f"archive {i} ({type(a.objects[0]).__name__}, {'from source' if i in load_ids else 'new'}) in {n}: "
+                              f"{len(m)} references in the message, {len(h)} in the header; only in the message {_only(m, h)[:6]}, only in the header {_only(h, m)[:6]}" + tag,
+                              {**where, **hist, "object": i, "message": m[:40], "header": h[:40]})
+    # -- correspondence: the same history through the Lean model -------------------------------
+    req = rec.request()
+    t = int(not rec.bad_targets)
+    t0 = int(all(b["target"] == 0 for b in rec.bad_targets))
+    impl = f"{rec.results()} | filed={int(rec.filed_at_load)}/{int(rec.filed())} targets={t}/{t0} | {G.saved_state(facts)}"
+    out = {"cases": 1, "ops": len(rec.ops), "objects": len(rec.load["ids"]), "unwrapped": rec.unwrapped[:5], "disagreement": None,
+           "header_kept": [{**k, "source": where.get("source"), "history": where.get("history")} for k in kept[:2]]}
+    if not _MODEL_OK[0]:
+        return out
+    try:
+        model = common.run_model([req])[0]
+    except Exception as e:  # noqa: BLE001
+        model = f"driver failed: {e}"[:200]
+    if model != impl:
+        a, b = impl.split(" "), model.split(" ")
+        diff = [(x[:160], y[:160]) for x, y in zip(a, b) if x != y][:6]
+        if len(a) != len(b):
+            diff.append((f"{len(a)} words", f"{len(b)} words"))
+        short = "ostore ghist <load state: %d objects> " % len(rec.load["ids"]) + " ".join(str(x) for op in rec.ops[-40:] for x in op[:-2 if op[0] in "AX" else None])
+        out["disagreement"] = {"subspace": GRAPH_SUBSPACE, "request": short[:3000], "where": where, "label": label,
+                               "impl": " || ".join(d[0] for d in diff), "model": " || ".join(d[1] for d in diff)}
+    return out
+
+
 def _history_worker(task):
     L._quiet()
     seed, hid, src, nops, shape, package, twice = task
@@ -425,7 +534,13 @@ def _history_worker(task):
             except Exception:  # noqa: BLE001  unreadable fixture: outside the quantifier
                 return common.sub_result(sub, stats)
         source = V.Facts(src if src else _template())
-        doc, log, fresh = run_history(src, seed * 7919 + hid, nops, shape)
+        with G.recording():
+            doc, log, fresh = run_history(src, seed * 7919 + hid, nops, shape)
+        rec = G.rec_of(doc._model.objects)
+        if _QUICK[0] and src and nops == 0 and hid % 2:   # quick tier: the object graph of every second plain re-save
+            rec = None
+            doc._model.objects._verif_rec = None
+        stats["graph"] = []
         p1 = os.path.join(d, "one.numbers")
         try:
             doc.save(p1, package=package)
@@ -434,6 +549,8 @@ def _history_worker(task):
             return common.sub_result(sub, stats)
         issues, f1 = V.validate(p1, source, fresh_tables=fresh)
         stats["saved"] += 1
+        if f1 is not None and rec is not None:
+            stats["graph"].append(graph_check(sub, rec, f1, where, "first save"))
         sub.count("validator: saved packages", 1)
         sub.mark(("pkg", hid, seed, src))
         for sig, what, det in issues:
@@ -449,11 +566,17 @@ def _history_worker(task):
                 sub.violation(sig, what + " [second save of the same Document]", {**where, "log": log[-12:], "detail": det, "second_save": True})
             if f2 is not None:
                 stats["tiles_after_first_and_second_save"] = (len(f1.pp.of_type("Tile")), len(f2.pp.of_type("Tile")))
-            doc3, log3, fresh3 = run_history(p1, seed * 104729 + hid, 4)
+                if rec is not None:
+                    stats["graph"].append(graph_check(sub, rec, f2, {**where, "second_save": True}, "second save of the same Document"))
+            with G.recording():
+                doc3, log3, fresh3 = run_history(p1, seed * 104729 + hid, 4)
+            rec3 = G.rec_of(doc3._model.objects)
             p3 = os.path.join(d, "three.numbers")
             try:
                 doc3.save(p3)
-                issues, _ = V.validate(p3, f1, fresh_tables=fresh3)
+                issues, f3 = V.validate(p3, f1, fresh_tables=fresh3)
+                if f3 is not None and rec3 is not None:
+                    stats["graph"].append(graph_check(sub, rec3, f3, {**where, "reopened": True}, "saved file reopened, edited, saved"))
                 sub.count("validator: saved packages", 1)
                 for sig, what, det in issues:
                     sub.violation(sig, what + " [saved file reopened, edited, saved]", {**where, "log": log[-12:] + log3, "detail": det, "reopened": True})
@@ -489,7 +612,30 @@ def check_packages(ctx: Ctx):
         tasks.append((ctx.seed, hid, edit_srcs[k % len(edit_srcs)], ctx.rng.randrange(3, 25), None, k % 7 == 0, k % 4 == 0))
         hid += 1
     random.Random(ctx.seed).shuffle(tasks)
+    _MODEL_OK[0] = ctx.model_available
+    _QUICK[0] = ctx.quick
     res = common.run_parallel(ctx, _history_worker, tasks)
+    graphs = [g for r in res if r for g in r.get("graph", [])]
+    subsp = ctx.subspaces.setdefault(GRAPH_SUBSPACE, {"cases": 0, "exhaustive": False, "disagreements": 0})
+    subsp["cases"] += len(graphs)
+    subsp["recorded_operations"] = sum(g["ops"] for g in graphs)
+    ctx.evaluations += len(graphs)
+    for g in graphs:
+        if g["disagreement"]:
+            subsp["disagreements"] += 1
+            if len(ctx.disagreements) < 50:
+                ctx.disagreements.append(g["disagreement"])
+        for u in g["unwrapped"]:
+            ctx.notes.append("object-graph recorder: " + u)
+    if not ctx.model_available:
+        subsp["skipped_model"] = True
+    kept = [k for g in graphs for k in g["header_kept"]]
+    ctx.extra["object_graph"] = {
+        "sessions": len(graphs), "recorded_operations": subsp["recorded_operations"],
+        "header_list_kept_after_last_reference_removed": {"count": len(kept), "examples": kept[:4],
+            "note": "copy_object_to_iwa_file rewrites a header's object_references only `if len(references) > 0`: an object whose message lost "
+                    "all references keeps the list of an earlier moment (the entries still resolve; closure is not affected) - the proviso "
+                    "of header_refs_exact, seen on real sessions"}}
     raises = sorted({r["save_raises"] for r in res if r and r.get("save_raises")})
     acc = [r["tiles_after_first_and_second_save"] for r in res if r and r.get("tiles_after_first_and_second_save")]
     ctx.extra["validator"] = {"label": "implementation-level exploration (structural validator), not a proof",
@@ -517,11 +663,19 @@ def replay(data):
         d = tempfile.mkdtemp(prefix="c07-")
         try:
             source = V.Facts(src if src else _template())
-            doc, log, fresh = run_history(src, i["seed"] * 7919 + i["history"], i["ops"], tuple(i["shape"]) if i.get("shape") else None)
+            with G.recording():
+                doc, log, fresh = run_history(src, i["seed"] * 7919 + i["history"], i["ops"], tuple(i["shape"]) if i.get("shape") else None)
+            rec = G.rec_of(doc._model.objects)
             p1 = os.path.join(d, "one.numbers")
             doc.save(p1, package=i.get("package", False))
-            issues, _ = V.validate(p1, source, fresh_tables=fresh)
+            issues, f1 = V.validate(p1, source, fresh_tables=fresh)
             out = {"first_save": [(s, w) for s, w, _ in issues]}
+            if rec is not None and f1 is not None:
+                sub = Ctx(PID, "quick", 0)
+                g = graph_check(sub, rec, f1, {"kind": "history"}, "first save")
+                out["object_graph"] = {"recorded_ops": len(rec.ops), "TargetsExist_failures": rec.bad_targets[:5],
+                                       "oracle": [(v["signature"], v["what"]) for v in sub.violations], "model_disagreement": g["disagreement"],
+                                       "history_tail": rec.history_json(40)}
             if i.get("second_save"):
                 p2 = os.path.join(d, "two.numbers")
                 doc.save(p2)
